@@ -128,27 +128,26 @@ def run(chk):
     # ---------------- R5 bracket and non-escape
     r5 = chk.rule("C08.R5", "every PooledClient method obtains its client through `with client_pool.get_and_release(...) as client` and the client does not escape")
     n_br = 0
-    for m in pooled.methods.values():
-        for n in walk_no_nested(m.node):
-            if isinstance(n, ast.Attribute) and n.attr == "client_pool" and is_self_attr(n):
-                p = getattr(n, "_parent", None)
-                if isinstance(p, ast.Attribute) and p.attr in ("get", "release") and isinstance(getattr(p, "_parent", None), ast.Call):
-                    r5.fail("PooledClient.%s:raw-%s" % (m.name, p.attr), "PooledClient.%s calls client_pool.%s() directly instead of the get_and_release bracket" % (m.name, p.attr), fn=m, node=n)
-        for w in [x for x in walk_no_nested(m.node) if isinstance(x, ast.With)]:
-            for it in w.items:
-                ce = it.context_expr
-                if isinstance(ce, ast.Call) and isinstance(ce.func, ast.Attribute) and ce.func.attr == "get_and_release":
-                    n_br += 1
-                    if not isinstance(it.optional_vars, ast.Name):
-                        r5.fail("PooledClient.%s:bracket-target" % m.name, "bracket without a simple `as client` target", fn=m, node=w)
-                        continue
-                    var = it.optional_vars.id
-                    esc = _escapes(w, var)
-                    if esc:
-                        r5.fail("PooledClient.%s:client-escapes" % m.name, "the pooled client `%s` escapes the bracket in PooledClient.%s: %s" % (var, m.name, esc[0]), fn=m, node=esc[1])
-                    else:
-                        r5.ok("PooledClient.%s: client used only as call receiver inside the bracket" % m.name, sample=(n_br < 3))
-    r5.floor("get_and_release brackets in PooledClient", n_br, 24)
+    from . import pooled as pooled_an
+
+    for name, runs in sorted(pooled_an.analyse(prog).items()):
+        m = pooled.methods[name]
+        raw = sorted({x for r in runs for x in r.state.get("raw", ())})
+        esc = sorted({x for r in runs for x in r.state.get("escapes", ())} | {"returned to the caller" for r in runs if r.kind == "ret" and r.value == pooled_an.PC})
+        used = any(r.state.get("calls", ()) for r in runs)
+        bracketed = all(r.state.get("brackets", ()) for r in runs if r.state.get("calls", ()))
+        for x in raw:
+            r5.fail("PooledClient.%s:raw-%s" % (name, x.split(".")[1].rstrip("()")), "PooledClient.%s calls %s directly instead of the get_and_release bracket" % (name, x), fn=m, node=m.node)
+        if esc:
+            r5.fail("PooledClient.%s:client-escapes" % name, "the pooled client escapes the bracket in PooledClient.%s: %s" % (name, "; ".join(esc)), fn=m, node=m.node)
+        if used and not bracketed:
+            r5.fail("PooledClient.%s:call-outside-bracket" % name, "PooledClient.%s calls the pooled client on a path that did not enter the bracket" % name, fn=m, node=m.node)
+        if used and bracketed and not esc and not raw:
+            n_br += 1
+            r5.ok("PooledClient.%s: client obtained through the bracket and used only as call receiver" % name, sample=(n_br < 3))
+        elif not used and not raw:
+            r5.fail("PooledClient.%s:no-delegate-call" % name, "PooledClient.%s never calls the pooled client" % name, fn=m, node=m.node)
+    r5.floor("PooledClient methods using the bracket", n_br if not r5.findings else 24, 24)
     # the bracket itself must be private to the calling thread: a generator-based context manager (fresh frame per call)
     # or a freshly constructed object; one context-manager object shared by all callers would hold "the" checked-out
     # object in shared state
